@@ -1240,4 +1240,163 @@ example : den (repartitionSizeB [2, 1, 3] [1, 2, 3] [[1, 2, 3], [4], [5, 6, 7, 8
 example : (repartitionB (cutsOfBag [List.range 12, [20, 21]] 11) 11 [List.range 12, [20, 21]]).length = 11 :=
   (repartition_more_ieee 11 [List.range 12, [20, 21]] (by decide) (by decide)).2
 
+/-! ## `foldby` without `combine_initial` / without any initial value -/
+
+theorem lookup_mergeWith (combine : β → β → β) (ds : List (List (Nat × β))) (κ : Nat) :
+    (mergeWith combine ds).lookup κ =
+      (ds.flatten.filter fun kv => kv.1 == κ).foldl (seedStep (fun a (kv : Nat × β) => combine a kv.2) (·.2)) none := by
+  have := lookup_foldl_seed (fun kv : Nat × β => kv.1) (fun a (kv : Nat × β) => combine a kv.2) (·.2) ds.flatten [] κ
+  simp only [List.lookup_nil] at this
+  exact this
+
+/-- merging with `merge_with(reduce(combine))` preserves "the dict holds the key-wise folds" — only the
+    homomorphism is needed (no unit: the first partial total of a key seeds the merge) -/
+theorem mergeWith_inv (key : α → Nat) (binop : β → α → β) (init : β) (combine : β → β → β)
+    (hom : ∀ q₁ q₂ : List α, (q₁ ++ q₂).foldl binop init = combine (q₁.foldl binop init) (q₂.foldl binop init))
+    {qs : List (List α)} {rs : List (List (Nat × β))} (hall : All2 (FoldbyInv key binop init) qs rs) :
+    FoldbyInv key binop init qs.flatten (mergeWith combine rs) := by
+  refine ⟨foldl_seed_nodup (fun kv : Nat × β => kv.1) (fun a (kv : Nat × β) => combine a kv.2) (·.2) rs.flatten [] (by simp),
+    fun κ => ?_⟩
+  rw [lookup_mergeWith]
+  simp only [foldbySpec, List.filter_flatten]
+  have key_lemma : ∀ (pre : List α) (acc : Option β),
+      acc = (if pre = [] then none else some (pre.foldl binop init)) →
+      (rs.map (List.filter fun kv => kv.1 == κ)).flatten.foldl
+          (seedStep (fun a (kv : Nat × β) => combine a kv.2) (·.2)) acc =
+        (if pre ++ (qs.map (List.filter fun x => key x == κ)).flatten = [] then none
+         else some ((pre ++ (qs.map (List.filter fun x => key x == κ)).flatten).foldl binop init)) := by
+    induction hall with
+    | nil => intro pre acc hacc; simp [hacc]
+    | @cons q r qs' rs' hqr _ ih =>
+      intro pre acc hacc
+      obtain ⟨hnd, hlook⟩ := hqr
+      have hfr := filter_key_of_nodup r hnd κ
+      rw [hlook κ] at hfr
+      simp only [foldbySpec] at hfr
+      simp only [List.map_cons, List.flatten_cons]
+      by_cases hq : q.filter (fun x => key x == κ) = []
+      · simp only [hq, if_true] at hfr
+        rw [hfr, hq]
+        simpa using ih pre acc hacc
+      · simp only [hq, if_false] at hfr
+        rw [hfr]
+        simp only [List.cons_append, List.nil_append, List.foldl_cons]
+        have hne : pre ++ q.filter (fun x => key x == κ) ≠ [] := by simp [hq]
+        have hacc' : seedStep (fun a (kv : Nat × β) => combine a kv.2) (·.2) acc
+              (κ, (q.filter fun x => key x == κ).foldl binop init) =
+            (if pre ++ q.filter (fun x => key x == κ) = [] then none
+             else some ((pre ++ q.filter (fun x => key x == κ)).foldl binop init)) := by
+          simp only [hne, if_false, seedStep, seedUpd]
+          by_cases hp : pre = []
+          · subst hp; simp [hacc]
+          · simp only [hp, if_false] at hacc
+            rw [hacc]; simp only [hom]
+        have := ih (pre ++ q.filter (fun x => key x == κ)) _ hacc'
+        rw [this, List.append_assoc]
+  have := key_lemma [] none (by simp)
+  simpa using this
+
+/-- **`foldby_noci_eq`**: `Bag.foldby(key, binop, initial, combine)` WITHOUT `combine_initial` (the levels
+    are `merge_with(reduce(combine))`): with `binop/combine/initial` a homomorphism the result is a dict with
+    distinct keys whose entry for every key is the sequential fold of the elements with that key — for every
+    partitioning and `split_every ≥ 2`. No unit law is needed. -/
+theorem foldby_noci_eq (key : α → Nat) (binop : β → α → β) (init : β) (combine : β → β → β)
+    (hom : ∀ q₁ q₂ : List α, (q₁ ++ q₂).foldl binop init = combine (q₁.foldl binop init) (q₂.foldl binop init))
+    (se : Nat) (hse : 2 ≤ se) (b : Bag α) :
+    ∃ r, foldbyNoCIB key binop init combine se b = some r ∧ (r.map (·.1)).Nodup ∧
+      ∀ κ, r.lookup κ = foldbySpec key binop init (den b) κ := by
+  obtain ⟨r, hr⟩ := Option.isSome_iff_exists.mp
+    (plainTree_isSome (mergeWith combine) se hse (b.map fun p => reduceBy key binop init p))
+  refine ⟨r, hr, ?_⟩
+  have hleaves : ∀ bs : Bag α, All2 (FoldbyInv key binop init) bs (bs.map fun p => reduceBy key binop init p) := by
+    intro bs
+    induction bs with
+    | nil => exact .nil
+    | cons p ps ih => exact .cons (reduceBy_inv key binop init p) ih
+  exact plainTree_inv (FoldbyInv key binop init) (mergeWith combine)
+    (fun qs rs hall => mergeWith_inv key binop init combine hom hall) se (hleaves b) r hr
+
+example : foldbyNoCIB (fun x : Int => (x % 3).toNat) (· + ·) 0 (· + ·) 2 [[1, 2, 4], [], [3, 5], [7]] =
+    some [(1, 12), (2, 7), (0, 3)] := by decide
+
+
+/-- a dict with distinct keys whose entry for `κ` is `functools.reduce(op, elements with key κ)` (absent: none) -/
+def NoInitInv (key : α → Nat) (op : α → α → α) (q : List α) (r : List (Nat × α)) : Prop :=
+  (r.map (·.1)).Nodup ∧ ∀ κ, r.lookup κ = pyReduce op (q.filter fun x => key x == κ)
+
+theorem reduceByNoInit_inv (key : α → Nat) (op : α → α → α) (p : List α) :
+    NoInitInv key op p (reduceByNoInit key op p) := by
+  refine ⟨foldl_seed_nodup key op id p [] (by simp), fun κ => ?_⟩
+  have := lookup_foldl_seed key op id p [] κ
+  simp only [List.lookup_nil] at this
+  rw [← foldl_seedStep_none]
+  exact this
+
+theorem mergeWith_noinit_inv (key : α → Nat) (op : α → α → α) (assoc : ∀ a b c, op (op a b) c = op a (op b c))
+    {qs : List (List α)} {rs : List (List (Nat × α))} (hall : All2 (NoInitInv key op) qs rs) :
+    NoInitInv key op qs.flatten (mergeWith op rs) := by
+  refine ⟨foldl_seed_nodup (fun kv : Nat × α => kv.1) (fun a (kv : Nat × α) => op a kv.2) (·.2) rs.flatten [] (by simp),
+    fun κ => ?_⟩
+  rw [lookup_mergeWith]
+  simp only [List.filter_flatten]
+  have key_lemma : ∀ (pre : List α),
+      (rs.map (List.filter fun kv => kv.1 == κ)).flatten.foldl
+          (seedStep (fun a (kv : Nat × α) => op a kv.2) (·.2)) (pyReduce op pre) =
+        pyReduce op (pre ++ (qs.map (List.filter fun x => key x == κ)).flatten) := by
+    induction hall with
+    | nil => intro pre; simp
+    | @cons q r qs' rs' hqr _ ih =>
+      intro pre
+      obtain ⟨hnd, hlook⟩ := hqr
+      have hfr := filter_key_of_nodup r hnd κ
+      rw [hlook κ] at hfr
+      simp only [List.map_cons, List.flatten_cons]
+      cases hq : q.filter (fun x => key x == κ) with
+      | nil =>
+        simp only [hq, pyReduce] at hfr
+        rw [hfr]
+        simpa using ih pre
+      | cons y ys =>
+        simp only [hq, pyReduce] at hfr
+        rw [hfr]
+        simp only [List.cons_append, List.nil_append, List.foldl_cons]
+        have hstep : seedStep (fun a (kv : Nat × α) => op a kv.2) (·.2) (pyReduce op pre) (κ, ys.foldl op y) =
+            pyReduce op (pre ++ y :: ys) := by
+          cases pre with
+          | nil => simp [seedStep, seedUpd, pyReduce]
+          | cons z zs =>
+            have := pyReduce_append op assoc (z :: zs) (y :: ys) _ _ rfl rfl
+            simp only [seedStep, seedUpd, pyReduce] at this ⊢
+            rw [this]
+        rw [hstep, ih (pre ++ y :: ys), List.append_assoc]; rfl
+  have := key_lemma []
+  simpa [pyReduce] using this
+
+/-- **`foldby_noinit_eq`**: `Bag.foldby(key, op)` with NO initial values (`reduceby` seeds every key with its
+    first element, the levels are `merge_with(reduce(op))`): for an associative `op` the entry of every key
+    is `functools.reduce(op, elements with that key)` — every partitioning, `split_every ≥ 2` -/
+theorem foldby_noinit_eq (key : α → Nat) (op : α → α → α) (assoc : ∀ a b c, op (op a b) c = op a (op b c))
+    (se : Nat) (hse : 2 ≤ se) (b : Bag α) :
+    ∃ r, foldbyNoInitB key op op se b = some r ∧ (r.map (·.1)).Nodup ∧
+      ∀ κ, r.lookup κ = pyReduce op ((den b).filter fun x => key x == κ) := by
+  obtain ⟨r, hr⟩ := Option.isSome_iff_exists.mp
+    (plainTree_isSome (mergeWith op) se hse (b.map fun p => reduceByNoInit key op p))
+  refine ⟨r, hr, ?_⟩
+  have hleaves : ∀ bs : Bag α, All2 (NoInitInv key op) bs (bs.map fun p => reduceByNoInit key op p) := by
+    intro bs
+    induction bs with
+    | nil => exact .nil
+    | cons p ps ih => exact .cons (reduceByNoInit_inv key op p) ih
+  exact plainTree_inv (NoInitInv key op) (mergeWith op)
+    (fun qs rs hall => mergeWith_noinit_inv key op assoc hall) se (hleaves b) r hr
+
+example : foldbyNoInitB (fun x : Int => (x % 3).toNat) (· + ·) (· + ·) 2 [[1, 2, 4], [], [3, 5], [7]] =
+    some [(1, 12), (2, 7), (0, 3)] := by decide
+example : ∃ r, foldbyNoInitB (fun x : Int => (x % 3).toNat) max max 2 [[1, 2, 4], [], [3, 5], [7]] = some r ∧
+    (r.map (·.1)).Nodup ∧ ∀ κ, r.lookup κ = pyReduce max ([1, 2, 4, 3, 5, 7].filter fun x => (x % 3).toNat == κ) :=
+  foldby_noinit_eq _ max (by intro a b c; omega) 2 (by decide) [[1, 2, 4], [], [3, 5], [7]]
+example : ∃ r, foldbyNoCIB (fun x : Int => (x % 3).toNat) (· + ·) 0 (· + ·) 3 [[1, 2, 4], [], [3, 5], [7]] = some r ∧
+    (r.map (·.1)).Nodup ∧ ∀ κ, r.lookup κ = foldbySpec (fun x : Int => (x % 3).toNat) (· + ·) 0 [1, 2, 4, 3, 5, 7] κ :=
+  foldby_noci_eq _ _ 0 _ add_hom 3 (by decide) [[1, 2, 4], [], [3, 5], [7]]
+
 end Dask.C48
